@@ -78,6 +78,19 @@ def pool(ck: Check, pairs=False):
     return scen
 
 
+def noise_pool():
+    """a device that speaks Noise but falls silent at some point of the connect (the handshake never completes):
+    only the library's timers can end the wait"""
+    sk = [("callStart",), ("resolved", 1), S, ("sockDone", 1), S, ("callFinish",), S, S, S]
+    silent_faults = [[], [("callDisc",)], [("force",)], [("cancel", "finish")], [("eof",)], [("reset",)], [("data", ["garbage"])],
+                     [("timer", "hs"), S], [S]]
+    scen = []
+    for pos in range(len(sk) + 1):
+        for f in silent_faults:
+            scen.append((False, sk[:pos] + f + sk[pos:], f"noise@{pos}"))
+    return scen
+
+
 def parse(o: str) -> dict:
     d = {}
     i = 0
@@ -100,13 +113,37 @@ def project(o: str, keys) -> str:
     return " ".join(f"{k}={d.get(k)}" for k in keys)
 
 
-def run_pool(scen):
+BOUNDS = {"start": 30.0 + 60.0, "finish": 30.0 + 30.0, "disc": 5.0 + 10.0}
+
+
+def run_pool(scen, timed=False):
     """returns per scenario: (lines, obs, info)"""
     out = []
     for login, ops, tag in scen:
-        lines, obs, b = connbench.run_scenario(ops, login=login)
+        lines, obs, b = connbench.run_scenario(ops, login=login, noise=tag.startswith("noise"))
+        hang = None
+        if timed:
+            # the environment stays silent: let virtual time run; only the library's own timers can end the waits
+            for _ in range(60):
+                pend = [n for n, t in b.tasks.items() if not t.done()]
+                nt = b.loop.next_timer()
+                if not pend or nt is None:
+                    break
+                b.loop._vt = max(b.loop._vt, nt)
+                b.loop.fire_due()
+                while b.do_step():
+                    pass
+            pend = [n for n, t in b.tasks.items() if not t.done()]
+            if pend:
+                hang = f"hang:{pend[0]}"
+            else:
+                for n, t in b.tasks.items():
+                    dur = b.t_done.get(n, b.loop.time()) - b.t_start.get(n, 0.0)
+                    if dur > BOUNDS[n] + 1e-6:
+                        hang = f"late:{n}:{dur:.1f}s>{BOUNDS[n]}s"
         info = {"steps": list(b.steps), "raw_escapes": list(b.raw_escapes), "unhandled": len(b.loop.unhandled),
-                "extra_accepted": [n for n, _ in b.extra_accepted]}
+                "extra_accepted": [n for n, _ in b.extra_accepted], "hang": hang, "user_cancelled": sorted(b.user_cancelled)}
+        lines, obs = b.lines, b.obs
         b.close()
         out.append((lines, obs, info))
     return out
@@ -242,7 +279,7 @@ def spec_c09(obs, lines, info):
         d = parse(o)
         for t in ("start", "finish", "disc"):
             v = d[t]
-            if v.startswith("raw") and v != "raw:RuntimeError":
+            if v.startswith("raw") and not (v == "raw:CancelledError" and t in info.get("user_cancelled", ())):
                 return f"raw-escape:{t}:{v}", i
         f = d["fatal"]
         if fatal is not None and fatal != "none" and f != fatal:
@@ -250,4 +287,6 @@ def spec_c09(obs, lines, info):
         fatal = f
     if info["raw_escapes"]:
         return "raw-escape:" + info["raw_escapes"][0][0], len(obs) - 1
+    if info.get("hang"):
+        return info["hang"], len(obs) - 1
     return None
